@@ -341,6 +341,9 @@ pub struct DevState {
     pub beyond: Vec<(EvKind, u64, u64)>,
     pub n_reads: u64,
     pub n_writes: u64,
+    /// byte range whose writes are counted separately (the FAT32 information sector)
+    pub watch: Option<(u64, u64)>,
+    pub n_writes_watch: u64,
     pub n_seeks: u64,
     pub n_flushes: u64,
     pub bytes_written: u64,
@@ -371,6 +374,8 @@ impl MonDev {
             beyond: Vec::new(),
             n_reads: 0,
             n_writes: 0,
+            watch: None,
+            n_writes_watch: 0,
             n_seeks: 0,
             n_flushes: 0,
             bytes_written: 0,
@@ -443,7 +448,14 @@ impl DevState {
         self.calls += 1;
         match kind {
             EvKind::Read => self.n_reads += 1,
-            EvKind::Write => self.n_writes += 1,
+            EvKind::Write => {
+                self.n_writes += 1;
+                if let Some((a, b)) = self.watch {
+                    if self.pos >= a && self.pos + len.max(1) <= b {
+                        self.n_writes_watch += 1;
+                    }
+                }
+            }
             EvKind::Seek => self.n_seeks += 1,
             EvKind::Flush => self.n_flushes += 1,
         }
